@@ -32,11 +32,17 @@ func tokenDenom(id int) string { return lockingtypes.TokenDenom(project.TokenAdd
 
 // NewLockingChain builds a chain for the locking drivers: validator 1 is the bedrock validator.
 func NewLockingChain(seed int64, o LockingOpts, r *rand.Rand) (*sim.Chain, error) {
+	c, _, err := NewLockingChainKey(seed, o, r)
+	return c, err
+}
+
+// NewLockingChainKey also returns the relayer Bitcoin key of the genesis.
+func NewLockingChainKey(seed int64, o LockingOpts, r *rand.Rand) (*sim.Chain, *sim.BtcKey, error) {
 	lockingtypes.PowerReduction = math.NewInt(o.PowerReduction)
 	kr := sim.NewKeyring(seed, o.NVals, 8)
 	c, err := sim.NewChain("goat-lock", kr, 0, dbm.NewMemDB())
 	if err != nil {
-		return nil, err
+		return nil, nil, err
 	}
 	btc := sim.NewBtcKey(seed, 0, false)
 	bg := bitcoinDefault()
@@ -57,14 +63,14 @@ func NewLockingChain(seed int64, o LockingOpts, r *rand.Rand) (*sim.Chain, error
 	accs := []cryptotypes.PubKey{kr.Vals[0].Pub, kr.Vals[o.NVals-1].Pub, kr.Members[0].Pub, kr.Members[1].Pub}
 	st, vals, err := c.AppState(sim.Genesis{Relayer: rg, Bitcoin: bg, Locking: lg, Accounts: accs})
 	if err != nil {
-		return nil, err
+		return nil, nil, err
 	}
 	cp := sim.DefaultConsensusParams()
 	cp.Evidence = &cmtproto.EvidenceParams{MaxAgeNumBlocks: 3, MaxAgeDuration: sim.Ticks(3), MaxBytes: 1048576}
 	if _, err := c.InitChain(st, vals, 1, cp); err != nil {
-		return nil, err
+		return nil, nil, err
 	}
-	return c, nil
+	return c, btc, nil
 }
 
 func (s *Session) EmitLockInit() error {
@@ -122,6 +128,7 @@ type lockGen struct {
 	nextID int
 	nv     int
 	mode   string
+	clean  bool // only requests the modules accept (the block message must then succeed)
 }
 
 func (g *lockGen) id() int { g.nextID++; return g.nextID }
@@ -185,6 +192,7 @@ func (g *lockGen) plan() *BlockPlan {
 	lk.Gas = []*goattypes.GasRequest{goattypes.NewGasRequest(uint64(h), big.NewInt(gas))}
 	abs["gas"] = []int64{gas}
 	rare := func(k int) bool { return r.Intn(k) == 0 }
+	dirty := func(k int) bool { return !g.clean && r.Intn(k) == 0 }
 	if rare(6) {
 		amt := int64(r.Intn(25))
 		lk.Grants = append(lk.Grants, &goattypes.GrantRequest{Amount: big.NewInt(amt)})
@@ -204,7 +212,7 @@ func (g *lockGen) plan() *BlockPlan {
 	}
 	if rare(7) {
 		t := 1 + r.Intn(4)
-		if !st.Tokens[t-1].Exists && !rare(4) {
+		if !st.Tokens[t-1].Exists && !dirty(4) {
 			t = 1 + r.Intn(2)
 		}
 		th := int64(r.Intn(4))
@@ -216,7 +224,7 @@ func (g *lockGen) plan() *BlockPlan {
 		v := c.KR.Vals[vi]
 		req := &goattypes.CreateRequest{Validator: v.EthAddr(), Pubkey: v.Uncompressed()}
 		ok := true
-		if rare(12) {
+		if dirty(12) {
 			req.Validator = rndAddr(r)
 			ok = false
 		}
@@ -224,23 +232,34 @@ func (g *lockGen) plan() *BlockPlan {
 		creates = append(creates, Ev{"v": vi + 1, "addrOk": ok})
 	}
 	pickVal := func() (int, common.Address) {
-		if rare(40) {
+		if dirty(40) || (g.mode == "multifail" && rare(3)) {
 			return 0, rndAddr(r)
 		}
 		vi := r.Intn(g.nv)
-		if !rare(12) {
+		if !dirty(12) {
 			vi = existing[r.Intn(len(existing))]
 		}
 		return vi + 1, c.KR.Vals[vi].EthAddr()
 	}
 	pickTok := func() int {
-		if rare(20) {
+		if dirty(20) {
 			return 1 + r.Intn(4)
+		}
+		if g.clean {
+			for {
+				if t := 1 + r.Intn(4); st.Tokens[t-1].Exists {
+					return t
+				}
+			}
 		}
 		return 1 + r.Intn(3)
 	}
 	if !rare(3) {
-		for k := r.Intn(4); k > 0; k-- {
+		nl := r.Intn(4)
+		if g.mode == "multifail" {
+			nl = 3 + r.Intn(4)
+		}
+		for k := nl; k > 0; k-- {
 			vid, addr := pickVal()
 			t := pickTok()
 			amt := int64(r.Intn(7))
